@@ -240,6 +240,7 @@ def oracle_C03(result):
     seen = {}      # (ctx, t, name) -> value first seen
     expected_td = {}  # ctx -> stack of callback ids successfully registered
     begun = {}
+    fac_pairs = []  # ctx -> (type, name) pairs that have a factory there
     life = shadow_life(result)
     for i, s in enumerate(steps):
         op, out, probe = s["op"], s["out"], s["probe"]
@@ -248,6 +249,21 @@ def oracle_C03(result):
         if op["op"] in ("AddResource", "AddFactory") and out["k"] == "OK" and \
                 not __import__("re").fullmatch(r"\w+", op["name"]):
             bad.append(("C03:invalid-name-accepted", f"step {i}: {op['op']} under the name {op['name']!r} succeeded", i))
+        # ... nor is a `types` argument that is (or contains) something that is not a type: 90, 91 stand for 5 and 7.5
+        # (add_resource validates its types; add_resource_factory only refuses None)
+        if op["op"] == "AddResource" and out["k"] == "OK" and any(t in (90, 91) for t in op["types"]):
+            bad.append(("C03:invalid-type-accepted", f"step {i}: add_resource with types {op['types']} (90/91: a number, "
+                        f"not a type) succeeded", i))
+        # a second factory for a pair that already has one in this context -- its own or one inherited when the
+        # context was created -- conflicts
+        if op["op"] == "New" and out["k"] == "OK":
+            fac_pairs.append(set(fac_pairs[op["p"]]) if op["p"] is not None else set())
+        if op["op"] == "AddFactory" and out["k"] == "OK":
+            taken = [(t, op["name"]) for t in op["types"] if (t, op["name"]) in fac_pairs[op["c"]]]
+            if taken:
+                bad.append(("C03:no-conflict", f"step {i}: add_resource_factory succeeded although context {op['c']} "
+                            f"already has a factory for {taken}", i))
+            fac_pairs[op["c"]].update((t, op["name"]) for t in op["types"])
         # stability of every (type, name) binding of every context that is not closed
         for j, p in enumerate(probe):
             for t, m in maps_of(p).items():
@@ -348,6 +364,11 @@ def oracle_C04(result):
                     bad.append(("C04:sync-async-disagree", f"step {i}: get_resource_nowait(optional) in context "
                                 f"{op['c']} found nothing for {k2}; the asynchronous lookup at step {j} returned {r2['v']}", i))
                     break
+        # a lookup of a proper type either returns, finds nothing, refuses (asynchronous factory through the synchronous
+        # API, closed context) -- the factories of these histories never raise, so nothing else can come out of it
+        if key and key[1] < 89 and out["k"] == "Err" and out["e"] not in ("NotFound", "AsyncErr", "RuntimeErr"):
+            bad.append(("C04:lookup-raised", f"step {i}: lookup of {key[1:]} in context {key[0]} raised {out['e']} "
+                        f"(whichever API triggers the generation returns the factory's product)", i))
         if key and out["k"] == "Val" and out["v"] is not None:
             if key in got and got[key][1] != out["v"]:
                 bad.append(("C04:callers-disagree", f"step {i}: lookup of {key[1:]} in context {key[0]} returned "
